@@ -54,7 +54,7 @@ COMMENT_POOL_ASCII = ["", " soma", "x", " CREATED BY tool v1.2", "\tindented", "
                       " scale 1.0 1.0 1.0", "# double"]
 COMMENT_POOL_UNI = [" neurone né à Zürich", " 神经元 形态", " µm ± 0.5", " ½ ¼ é"]
 COMMENT_POOL_LATIN = [" né à Zürich", " µm ± 0.5", " ½ ¼ é"]
-BAD_TOKENS = ["abc", "x", "1x", "--", "?", "1;2", "NaN%", "soma", "1..2", "e", "+-1"]
+BAD_TOKENS = ["abc", "x", "1x", "--", "?", "1;2", "NaN%", "soma", "1..2", "e", "+-1", "1,5", "2,0", "0,", ",", "3,25", "1:2", "1/2"]
 
 
 # ---------------------------------------------------------------------------
